@@ -1,10 +1,10 @@
 package harness
 
 import (
-	"sync"
 	"fmt"
 	"sort"
 	"strings"
+	"sync"
 	"testing"
 )
 
@@ -54,7 +54,9 @@ func famIDs(tb *Tables, fam [][]string) []string {
 // c11Structure is the validity predicate over the shipped table (DESIGN.md C11.1).
 func c11Structure(tb *Tables) []Outcome {
 	var out []Outcome
-	add := func(key, format string, a ...any) { out = append(out, Outcome{Key: key, Msg: fmt.Sprintf(format, a...)}) }
+	add := func(key, format string, a ...any) {
+		out = append(out, Outcome{Key: key, Msg: fmt.Sprintf(format, a...)})
+	}
 	// every entry is a listed id
 	for i, fam := range tb.Ranges {
 		if len(fam) == 0 {
